@@ -558,6 +558,8 @@ def mutate (meth : String) (recv : PV) (args : List PV) : Except Err PV :=
       .ok (.counter (xs.foldl (fun acc x => cbump x acc) kvs))
   | "update", .dict kvs, [.dict other] => .ok (.dict (other.foldl (fun acc kv => PV.dset kv.1 kv.2 acc) kvs))
   | "setitem", .dict kvs, [k, v] => .ok (.dict (PV.dset k v kvs))
+  | "delitem", .dict kvs, [k] =>
+      if (PV.lookup k kvs).isSome then .ok (.dict (kvs.filter (fun kv => !PV.beq kv.1 k))) else .error (.keyError "key")
   | "setitem", .counter kvs, [k, v] => .ok (.counter (PV.dset k v kvs))
   | _, _, _ => .error (.typeError ("mutate " ++ meth))
 
@@ -606,6 +608,8 @@ inductive S where
   | extCall (target : String) (name : String) (args : E)
   /-- `try: body  except exc as x: handler`, for a body whose failure leaves the state as it was (one assignment or call) -/
   | tryExcept (body : S) (exc : String) (x : String) (handler : S)
+  /-- `d[k].m(args)`: the member of the local dict `d` under `k` is replaced by what the mutating method makes of it -/
+  | mutAt (x : String) (key : E) (meth : String) (args : E)
   /-- `(a, b, c) = <expr>`: the value must be an iterable of exactly that many items (`ValueError` otherwise) -/
   | unpack (xs : List String) (e : E)
   /-- `raise <expr>` (`raise <expr> from <cause>`): the value must be an exception object (`excObj`) -/
@@ -844,6 +848,14 @@ def exec (ext : Ext) : S → St → Except Err (Ctl × St)
     match exec ext body st with
     | .error (.user tag) => if tag = exc then exec ext handler { st with env := st.env.set x (.opaque "exception" exc) } else .error (.user tag)
     | r => r
+  | .mutAt x key meth args, st => do
+    let d ← st.env.get x
+    let k ← evalE ext st.env key
+    let vs ← evalArgs ext st.env args
+    let cur ← opGetitem [d, k]
+    let new ← mutate meth cur vs
+    let d' ← mutate "setitem" d [k, new]
+    .ok (.next, { st with env := st.env.set x d' })
   | .unpack xs e, st => do
     let vs ← iterOf (← evalE ext st.env e)
     if vs.length = xs.length then .ok (.next, { st with env := (xs.zip vs).foldl (fun env p => env.set p.1 p.2) st.env })
